@@ -112,6 +112,16 @@ def job_pairs(ctx, k, lo, hi):
             else:
                 ctx.cls('pairs:unit')
             ctx.seen(('pair', k, a, b))
+        # integer-typed copies of integer-valued operands (a user writing np.array([0, 1, 0, 0]))
+        if np.all(p == np.round(p)):
+            pi_ = np.round(p).astype(int)
+            for b in range(0, len(items), 17):
+                nb, ib, q, qu = items[b]
+                ref = rq.qmul(p, q)
+                key = f'p={na}[{ia}](int dtype) q={nb}[{ib}] k{k} versor=' + ('True' if (pu and qu) else 'False')
+                ctx.close(np.asarray(O.q_prod(pi_.copy(), q.copy()), float), ref, TOL * max(1.0, rq.qnorm(p) * rq.qnorm(q)), 'q_prod = product (integer-typed left operand)', key)
+                ctx.close(np.asarray(Quaternion(pi_.copy(), versor=False).product(q.copy()), float), ref, TOL * max(1.0, rq.qnorm(p) * rq.qnorm(q)), 'Quaternion.product = Hamilton product (integer-typed left operand)', key)
+                ctx.close(np.asarray(O.q_prod(q.copy(), pi_.copy()), float), rq.qmul(q, p), TOL * max(1.0, rq.qnorm(p) * rq.qnorm(q)), 'q_prod = product (integer-typed right operand)', key)
         # free-function product matrices (unit operands only: they normalise their argument)
         if pu:
             key = f'p={na}[{ia}] k{k}'
@@ -132,6 +142,14 @@ def job_inverse(ctx, k):
     lat = A.LAT4(2, normalise=False)
     items += [('LAT4(2)full', i, q, False) for i, q in enumerate(lat)]
     items += [('scaled', i, q * s, False) for i, q in enumerate(A.Gl(A.G24(), k)) for s in (1e-3, 0.5, 3.0, 1e3)]
+    # default construction (versor=True) from input whose norm is close to, but not exactly, one: the object must be EXACTLY normalised
+    for i, q in enumerate(A.Gl(A.G24(), k)[:12]):
+        for s_ in (1 + 8e-6, 1 - 8e-6, 1 + 1e-7, 1 - 3e-9, np.float64(np.float32(1.0000001))):
+            key = f'q=near-unit[{i}]*{float(s_)!r} k{k} versor=True(default)'
+            Qn = Quaternion((q * s_).copy())
+            ctx.expect(abs(rq.qnorm(np.asarray(Qn)) - 1.0) <= 1e-15, 'Quaternion(q) with |q| close to 1 is normalised exactly', key, rq.qnorm(np.asarray(Qn)), 1.0, 1e-15)
+            r1 = np.asarray(Qn.product(np.asarray(Qn.inverse).copy()))
+            ctx.close(r1, one, 1e-12, 'Quaternion.inverse: q*inv(q)=1', key)
     for name, i, q, unit in items:
         n2 = rq.qnorm(q)
         unit = abs(n2 - 1.0) < 1e-12
@@ -173,6 +191,21 @@ def job_order(ctx, k):
             ctx.transitions += 2
         ctx.cls('order:S')
         ctx.seen(('order', i))
+    # objects derived from a scalar-last quaternion without going through the constructor keep their storage order
+    import copy as _copy
+    for i, q in enumerate(S[::9]):
+        Sl = Quaternion(np.roll(q, -1).copy(), order='S')
+        H = Quaternion(q.copy())
+        for how, obj in (('copy()', Sl.copy()), ('view()', Sl.view()), ('copy.copy', _copy.copy(Sl)), ('deepcopy', _copy.deepcopy(Sl)), ('[:]', Sl[:]), ('+0.0', Sl + 0.0) ):
+            key = f'q=S[{9 * i}] k{k} derived={how}'
+            if how == '+0.0':
+                # __add__ re-wraps through the constructor with Hamilton order: judged only on being a valid unit quaternion
+                ctx.expect(abs(rq.qnorm(np.asarray(obj)) - 1) <= 1e-12, "order='S': q + 0 is a unit quaternion", key, np.asarray(obj), 'unit')
+                continue
+            ok = all(abs(float(getattr(obj, c)) - float(getattr(H, c))) <= 1e-15 for c in 'wxyz')
+            ctx.expect(ok, "order='S': w, x, y, z of a copy / view / slice equal those of the original", key, [float(getattr(obj, c)) for c in 'wxyz'], q, 1e-15)
+            ctx.close(np.asarray(obj.to_DCM()), np.asarray(H.to_DCM()), 1e-14, "order='S': to_DCM of a copy / view / slice equals the original's", key)
+            ctx.close(np.asarray(obj.product(others[0].copy())), np.asarray(H.product(others[0].copy())), 1e-14, "order='S': product of a copy / view / slice equals the original's", key)
     ctx.states += len(S)
     ctx.traces += len(S)
     ctx.sample({'scalar_last': np.roll(S[60], -1).tolist(), 'scalar_first': S[60].tolist()})
